@@ -1816,15 +1816,15 @@ class Interp:
         nz = zint(n)
         view = LoopView(self, fr)
         if getattr(ann, 'entry', None) is not None:
-            object.__setattr__(view, '_ghost', dict(ann.entry(view)))
-        st.prove('inv:%s#entry' % ann.name, ann.invariant(view, 0), kind='helper')
+            object.__setattr__(view, '_ghost', dict(_ann_call(ann.entry, view)))
+        st.prove('inv:%s#entry' % ann.name, _inv(ann, view, 0), kind='helper')
         which = st.branch(2, 'loop:%s' % ann.name)
         self.do_havoc(s, fr, ann)
         if which == 0:
             # arbitrary iteration
             i = mk(z3.Int(st.fresh_name('i_' + ann.name)))
             st.assume(z3.And(zint(i) >= 0, zint(i) < nz))
-            st.assume(ann.invariant(view, i))
+            st.assume(_inv(ann, view, i))
             self.assign(s.target, at(i), fr)
             try:
                 self.block(s.body, fr)
@@ -1835,24 +1835,24 @@ class Interp:
                 return            # continue after the loop with the state at the break
             except _Continue:
                 pass
-            st.prove('inv:%s#preserve' % ann.name, ann.invariant(view, i + 1), kind='helper')
+            st.prove('inv:%s#preserve' % ann.name, _inv(ann, view, i + 1), kind='helper')
             raise LoopCutEnd()
         else:
-            st.assume(ann.invariant(view, n))
+            st.assume(_inv(ann, view, n))
             self.block(s.orelse, fr)
 
     def cut_while(self, s, fr, ann):
         st = self.st
         view = LoopView(self, fr)
         if getattr(ann, 'entry', None) is not None:
-            object.__setattr__(view, '_ghost', dict(ann.entry(view)))
-        st.prove('inv:%s#entry' % ann.name, ann.invariant(view, None), kind='helper')
+            object.__setattr__(view, '_ghost', dict(_ann_call(ann.entry, view)))
+        st.prove('inv:%s#entry' % ann.name, _inv(ann, view, None), kind='helper')
         which = st.branch(2, 'loop:%s' % ann.name)
         self.do_havoc(s, fr, ann)
         if getattr(ann, 'havoc', None) is not None:
             object.__setattr__(view, '_exit_path', which == 1)
-            ann.havoc(view)
-        st.assume(ann.invariant(view, None))
+            _ann_call(ann.havoc, view)
+        st.assume(_inv(ann, view, None))
         if which == 0:
             if not self.decide(self.ev(s.test, fr)):
                 raise PathAbort()
@@ -1863,12 +1863,12 @@ class Interp:
                 if getattr(ann, 'exit_any', False):
                     # the code after the loop is examined once, from the havoc'd state with the loop test left open (other branch); a
                     # state that leaves by break only has to be one of those states
-                    st.prove('inv:%s#break' % ann.name, ann.invariant(view, None), kind='helper')
+                    st.prove('inv:%s#break' % ann.name, _inv(ann, view, None), kind='helper')
                     raise LoopCutEnd()
                 return
             except _Continue:
                 pass
-            st.prove('inv:%s#preserve' % ann.name, ann.invariant(view, None), kind='helper')
+            st.prove('inv:%s#preserve' % ann.name, _inv(ann, view, None), kind='helper')
             if v0 is not None:
                 v1 = ann.variant(view)
                 st.prove('var:%s' % ann.name, mk(z3.And(zint(v0) >= 0, zint(v1) < zint(v0))), kind='helper')
@@ -1881,6 +1881,19 @@ class Interp:
             if self.decide(self.ev(s.test, fr)):
                 raise PathAbort()
             self.block(s.orelse, fr)
+
+
+def _ann_call(fn, *args):
+    """evaluate a piece of a loop annotation; an annotation that no longer fits the source (missing attribute / key, other shape) makes the
+    loop out of reach of the proof - undecided, the executable twin still runs - rather than a checker failure"""
+    try:
+        return fn(*args)
+    except (AttributeError, KeyError, IndexError, TypeError) as e:
+        raise Unsupported('loop annotation does not apply to the current source (%s: %s)' % (type(e).__name__, e))
+
+
+def _inv(ann, view, j):
+    return _ann_call(ann.invariant, view, j)
 
 
 class _WouldFork(Exception):
@@ -2012,7 +2025,10 @@ class LoopView:
         nm = mangle(name, fr.cls)
         if nm in fr.env:
             return fr.env[nm]
-        raise AttributeError(name)
+        # the annotation names a local the function no longer has (renamed or restructured loop): the annotation does not apply to this
+        # source any more - the loop is then out of reach of the proof (undecided; the executable twin still runs), not a checker failure
+        raise Unsupported('loop annotation refers to a local variable `%s` that %s does not have (the loop was rewritten; the invariant no longer applies)'
+                          % (name, fr.func.qualname if fr.func is not None else 'the module'))
 
 
 def loop_ordinal(fr, node):
